@@ -106,9 +106,11 @@ func forward(in net.Conn, tunnel *Tunnel) {
 		}
 		binary.Write(b1, binary.LittleEndian, uint16(n))
 		b1.Write(buf[:n])
+		verifPoint("forward.beforeWrite")
 		tunnel.Write(createPacket(PKT_TYPE_DATA, b1.Bytes()))
 		b1.Reset()
 	}
+	verifEvent("forward.exit", tunnel)
 }
 
 // receive data received from the gateway client, unwrap and forward the remote desktop server
